@@ -67,7 +67,7 @@ RenP(P, rho) ==
       [] P[1] = "lam" -> <<"lam", P[2], RenP(P[3], rho)>>
       [] P[1] = "eq"  -> <<"eq", RenP(P[2], rho), RenP(P[3], rho)>>
       [] P[1] = "len" -> <<"len", RenP(P[2], rho)>>
-      [] P[1] = "sub" -> <<"sub", RenP(P[2], rho), P[3]>>
+      [] P[1] \in {"sub", "or"} -> <<P[1], RenP(P[2], rho), P[3]>>
       [] OTHER -> P
 
 RenB(bd, rho) == IF bd[1] = "name" THEN <<"name", R(rho, bd[2])>> ELSE IF bd[1] = "py" THEN <<"py", RenP(bd[2], rho)>> ELSE bd
